@@ -140,6 +140,24 @@ fn walk(args: &vlib::Args) {
         "cover" => w.cover(),
         "paths" => w.paths(args.num("depth", 6) as usize, args.num("budget", 1_000_000)),
         "random" => w.random(args.num("walks", 10), args.num("steps", 1000), seed ^ args.num("salt", 0)),
+        "handoff" => {
+            // arguments for the second process: everything except the mode / walk parameters
+            let mut child: Vec<String> = vec!["walk".into()];
+            for k in ["automaton", "kind", "flavour", "cap"] {
+                if let Some(v) = args.get(k) {
+                    child.push(format!("--{k}"));
+                    child.push(v);
+                }
+            }
+            for f in ["blocks", "relocate", "protect", "avoid-known"] {
+                if args.flag(f) {
+                    child.push(format!("--{f}"));
+                }
+            }
+            w.handoff(args.num("walks", 10), args.num("steps", 30), seed ^ args.num("salt", 0),
+                      &args.get("handoff-file").expect("--handoff-file"), &child)
+        }
+        "resume" => w.resume(&args.get("resume-file").expect("--resume-file"), args.num("steps", 30), args.num("salt", 1)),
         "replay" => {
             let p: Vec<u32> = args.get_or("path", "").split(',').filter(|s| !s.is_empty()).map(|s| s.parse().unwrap()).collect();
             w.replay(&p, args.flag("strip-relocate"))
